@@ -41,6 +41,11 @@ def lev_pdist(self, instances):
 WIDE = {"numpy.int32", "numpy.int64", "numpy.uint32", "numpy.uint64", "numpy.float32", "numpy.float64", "builtins.int", "builtins.float"}
 
 
+# numpy's triangle selectors are modelled: the strict upper triangle (k=1) read row by row is the condensed form (rewritten to squareform below);
+# every other selection (lower triangle, other offsets) is a different order of the entries - a decided difference, not an unknown one
+TRIANGLE_SELECTORS = {"numpy.triu_indices", "numpy.triu_indices_from", "numpy.tril_indices", "numpy.tril_indices_from"}
+
+
 def cdist_rewrite(t):
     """process.cdist: 'workers' does not influence the result; a >= 32 bit dtype is as good as the default."""
     if head(t) == "call" and strip(t[1]) == ("glob", "rapidfuzz.process.cdist"):
@@ -60,6 +65,12 @@ def cdist_rewrite(t):
             tri = strip(strip(ix[1][0])[1])
         elif head(ix) == "call":
             tri = ix
+        if tri is not None and head(tri) == "call" and strip(tri[1]) == ("glob", "numpy.triu_indices_from"):
+            args = dict(tri[3])
+            arr = tri[2][0] if tri[2] else args.get("arr")
+            k = tri[2][1] if len(tri[2]) > 1 else args.get("k")
+            if arr is not None and k is not None and is_const(strip(k), 1) and strip_all(arr) == strip_all(M):
+                return ("call", ("glob", "scipy.spatial.distance.squareform"), (), (("X", t[1]), ("checks", FALSE)))
         if tri is not None and head(tri) == "call" and strip(tri[1]) == ("glob", "numpy.triu_indices"):
             args = dict(tri[3])
             n = tri[2][0] if tri[2] else args.get("n")
@@ -319,7 +330,7 @@ def run(r):
     check_pure_params(r, "C08-PURE", [L + "WeightedLevenshtein.calc_cdist_matrix", L + "WeightedLevenshtein.calc_pdist_vector", L + "Levenshtein.calc_cdist_matrix", L + "Levenshtein.calc_pdist_vector", "pyrepseq.distance.pdist", "pyrepseq.distance.cdist"])
     check_scorer(r, "C08-W", L + "WeightedLevenshtein.__init__")
     check_scorer(r, "C08-W", "pyrepseq.metric.tcr_metric.tcr_levenshtein.TcrLevenshtein.__init__")
-    eq = Equiv(rewrites=std_rewrites() + [cdist_rewrite], modelled={"rapidfuzz.process.cdist", "scipy.spatial.distance.squareform"})
+    eq = Equiv(rewrites=std_rewrites() + [cdist_rewrite], modelled={"rapidfuzz.process.cdist", "scipy.spatial.distance.squareform"} | TRIANGLE_SELECTORS)
     compare_function(r, "C08-CD", L + "WeightedLevenshtein.calc_cdist_matrix", SPEC, "cdist[i, j] = scorer(anchors[i], comparisons[j]): anchors first, no narrow dtype, no cut-off", fname="calc_cdist_matrix", eq=eq, key="cdist call")
     compare_function(r, "C08-PV", L + "WeightedLevenshtein.calc_pdist_vector", SPEC, "pdist vector = squareform(checks=False) of the self cdist of one and the same collection", fname="calc_pdist_vector", eq=eq, key="pdist vector")
     compare_function(r, "C08-LV", L + "Levenshtein.calc_cdist_matrix", SPEC, "Levenshtein delegates calc_cdist_matrix to its WeightedLevenshtein", fname="lev_cdist", eq=eq, key="delegate cdist")
